@@ -389,7 +389,16 @@ def tooled(fn):
     """
     if is_tooled(fn):
         return fn
-    return transform(fn, proceed=proceed)
+    new_fn = transform(fn, proceed=proceed)
+    try:
+        from codefind import code_registry
+
+        # The tooled function stands for fn (it usually replaces it, as a
+        # decorator): absolute references to fn lead to it
+        code_registry.update_cache_entry(new_fn, fn.__code__, new_fn.__code__)
+    except ImportError:  # pragma: no cover
+        pass
+    return new_fn
 
 
 def inplace(fn):
